@@ -122,6 +122,8 @@ def run(ctx):
                     r.fail(rule, key, 'arm %s drops a drained data-change notification (only its sequence number is recycled): sampled changes are lost when the interval elapses with this action' % name, loc=hb.loc)
             r.floor(rule, 'action_arms', n, 5)
     data_wins(ctx)
+    from .substate import tick_wiring
+    tick_wiring(ctx)
 
 
 def data_wins(ctx, rule='data-wins-over-keep-alive'):
